@@ -525,6 +525,22 @@ func (w *World) balances(onlyTradable bool) []balRef {
 		}
 		out = append(out, balRef{sdk.AccAddress(b.Address), bt, t, r, e})
 	}
+	// inside a speculative branch: mostly the holdings of the batches the branch itself has issued
+	if w.inBranch && len(w.brNew.batches) > 0 && w.intn("bal?new", 5) >= 2 {
+		isNew := map[string]bool{}
+		for _, d := range w.brNew.batches {
+			isNew[d] = true
+		}
+		var only []balRef
+		for _, b := range out {
+			if isNew[b.Batch.Denom] {
+				only = append(only, b)
+			}
+		}
+		if len(only) > 0 {
+			return only
+		}
+	}
 	return out
 }
 
